@@ -17,9 +17,12 @@ PAGE = 65536          # restated from the spec, not read from w2c2_base.h
 FAILED = 0xFFFFFFFF
 
 
-def module(init, mx):
+def module(init, mx, imported=False):
     m = Module()
-    m.mems.append((init, mx, True))
+    if imported:        # the module imports its shared memory (env.mem); the embedder (harness) allocates it
+        m.imports.append(('env', 'mem', 2, (init, mx, True)))
+    else:
+        m.mems.append((init, mx, True))
     m.add_func('i', 'i', (), local_get(0) + memory_grow(), export='grow')
     m.add_func('', 'i', (), memory_size(), export='size')
     m.add_func('ii', '', (), local_get(0) + local_get(1) + memop(0x36, 2, 0), export='store')
@@ -27,17 +30,18 @@ def module(init, mx):
     return m.encode()
 
 
-def build(init, mx, flavours, root=None):
+def build(init, mx, flavours, root=None, imported=False):
     """translate + compile the harness for one memory configuration; returns {flavour: exe}, gen dir"""
-    d = os.path.join(root or scratch('c18'), 'mem_%d_%d' % (init, mx))
+    d = os.path.join(root or scratch('c18'), 'mem_%d_%d%s' % (init, mx, '_imported' if imported else ''))
     os.makedirs(d, exist_ok=True)
-    rc, err = batch.translate(module(init, mx), d, w2c2=mclib.w2c2_binary())
+    rc, err = batch.translate(module(init, mx, imported), d, w2c2=mclib.w2c2_binary())
     if rc != 0:
         raise mclib.MachineryError('w2c2 failed on the C18 module: ' + err)
     src = open(os.path.join(d, 'm.c')).read()
-    if 'mNewChild' not in src or 'i->m0 = parent->m0' not in src.replace('\n', ' '):
+    if 'mNewChild' not in src or (not imported and 'i->m0 = parent->m0' not in src.replace('\n', ' ')):
         raise mclib.MachineryError('generated code has no NewChild that shares the parent memory')
-    exes = dict(pmap(lambda fl: (fl, mclib.build_harness(d, fl, [os.path.join(d, 'm.c'), os.path.join(mclib.MC, 'h_grow.c')], incs=[d, os.path.join(REPO, 'w2c2')])), flavours))
+    defs = ['-DIMPORTED_MEM=1', '-DMEM_INIT=%d' % init, '-DMEM_MAX=%d' % mx] if imported else []
+    exes = dict(pmap(lambda fl: (fl, mclib.build_harness(d, fl, [os.path.join(d, 'm.c'), os.path.join(mclib.MC, 'h_grow.c')], incs=[d, os.path.join(REPO, 'w2c2')], defs=defs)), flavours))
     return exes, d
 
 
@@ -100,7 +104,7 @@ def linearizable(ops, init_pages, mx):
 
 
 def oracle(job, o):
-    init_pages, mx = job['case']['mem']
+    init_pages, mx = job['case']['mem'][:2]
     fails = []
     if o['status'] != 'ok':
         return [('terminal|' + o['status'], 'threads did not all terminate: %s' % o['end'])]
@@ -182,6 +186,10 @@ def make_cases(tier):
         # three threads, one operation each, bound 2
         for t in itertools.combinations_with_replacement(['g1', 'g2', 'z', 'g5'], 3):
             add((1, 4), [[x] for x in t], 2)
+        # the module IMPORTS its shared memory (allocated by the embedder): same protocol, other code path in the emitter
+        for a, b in itertools.combinations_with_replacement(S, 2):
+            add((1, 4, 'imported'), [a, b], 2)
+        add((1, 4, 'imported'), [['g1', 'z'], ['z', 'g1']], 2)
     else:
         P = programs('thorough', True)
         for a, b in itertools.combinations_with_replacement(P, 2):
@@ -219,7 +227,7 @@ def main(tier):
         mems = sorted(set(tuple(c['mem']) for c in cases))
         root = scratch('c18')
         built = {}
-        for mem, (exes, d) in zip(mems, pmap(lambda mm: build(mm[0], mm[1], FLAVOURS, root), mems)):
+        for mem, (exes, d) in zip(mems, pmap(lambda mm: build(mm[0], mm[1], FLAVOURS, root, imported=len(mm) > 2), mems)):
             built[mem] = (exes, d)
         jobs = []
         for c in cases:
@@ -252,7 +260,7 @@ def main(tier):
 def replay_file(path):
     obj = json.load(open(path))
     mem = tuple(obj['case']['mem'])
-    exes, d = build(mem[0], mem[1], [obj['flavour']])
+    exes, d = build(mem[0], mem[1], [obj['flavour']], imported=len(mem) > 2)
     r = mclib.replay(exes[obj['flavour']], obj['words'], obj['schedule'], spurious=obj.get('spurious', 0))
     print('case      :', json.dumps(obj['case']))
     print('flavour   :', obj['flavour'], ' schedule:', r['sched'], ' enabled-set sizes:', r['enabled'])
